@@ -212,7 +212,7 @@ func tryMerge(prefix int, a, b Outcome) (Outcome, bool) {
 			nh[k] = va
 			continue
 		}
-		if va == vb {
+		if identical(va, vb) {
 			nh[k] = va
 			continue
 		}
@@ -259,4 +259,29 @@ func (e *Engine) mergeOutcomes(prefix int, outs []Outcome) []Outcome {
 		}
 	}
 	return res
+}
+
+// identical is a cheap pointer-level equality (no deep comparison, never panics).
+func identical(a, b Value) bool {
+	switch x := a.(type) {
+	case *smt.Term:
+		y, ok := b.(*smt.Term)
+		return ok && x == y
+	case *StructV:
+		y, ok := b.(*StructV)
+		return ok && x == y
+	case *ArrayV:
+		y, ok := b.(*ArrayV)
+		return ok && x == y
+	case *MapData:
+		y, ok := b.(*MapData)
+		return ok && x == y
+	case *IterData:
+		y, ok := b.(*IterData)
+		return ok && x == y
+	case Ptr:
+		y, ok := b.(Ptr)
+		return ok && ptrEq(x, y)
+	}
+	return false
 }
